@@ -29,11 +29,9 @@ from vgi_rpc.rpc import (
     AuthContext,
     CallContext,
     OutputCollector,
-    RpcError,
     RpcMethodInfo,
     Stream,
     StreamState,
-    VersionError,
     _ClientLogSink,
     _coerce_input_batch,
     _deserialize_params,
@@ -63,7 +61,12 @@ from vgi_rpc.rpc._common import (
 from vgi_rpc.utils import ArrowSerializableDataclass, ValidatedReader, empty_batch, new_ipc_stream
 
 from .._common import _RpcHttpError
-from ._responses import _current_response_status, _enforce_response_budgets
+from ._responses import (
+    _BAD_REQUEST_ERRORS,
+    _MALFORMED_IPC_ERRORS,
+    _current_response_status,
+    _enforce_response_budgets,
+)
 from ._state_token import (
     _compute_aad,
     _compute_call_aad,
@@ -246,7 +249,7 @@ def _run_stream_init_sync(
             # method raises past this point takes the ordinary error path.
             _validate_call_signature(info.name, kwargs, info.param_types, info.param_defaults, info.params_schema)
             _validate_params(info.name, kwargs, info.param_types)
-        except (pa.ArrowInvalid, TypeError, StopIteration, RpcError, VersionError) as exc:
+        except _BAD_REQUEST_ERRORS as exc:
             raise _RpcHttpError(exc, status_code=HTTPStatus.BAD_REQUEST) from exc
         except Exception as exc:
             # External pointer resolution can fail before stream state exists.
@@ -511,7 +514,7 @@ def _run_stream_exchange_sync(
         try:
             req_reader = ValidatedReader(ipc.open_stream(stream), app._server.ipc_validation)
             input_batch, custom_metadata = req_reader.read_next_batch_with_custom_metadata()
-        except pa.ArrowInvalid as exc:
+        except _MALFORMED_IPC_ERRORS as exc:
             raise _RpcHttpError(exc, status_code=HTTPStatus.BAD_REQUEST) from exc
 
         # Extract both tokens before resolution — resolve_external_location
@@ -714,7 +717,19 @@ def _run_http_exchange_turn(
         # Reconcile the inbound batch's schema against the declared
         # input schema (strict on field set, tolerant of order/type).
         input_batch = _coerce_input_batch(input_batch, input_schema)
+    except _BAD_REQUEST_ERRORS as exc:
+        # Caller-controlled shape, refused before ``state.process()`` runs: a
+        # request error (400) like a parameter mismatch on the unary path, not
+        # the 200 + ``X-VGI-RPC-Error`` of a call that was dispatched and failed.
+        # ``TypeError`` is a schema mismatch; Arrow itself objects to e.g. a
+        # field name that is not UTF-8 (``UnicodeDecodeError``).
+        outcome.status = "error"
+        outcome.error_type = type(exc).__name__
+        outcome.error_message = _truncate_error_message(exc)
+        outcome.http_status = HTTPStatus.BAD_REQUEST
+        raise _RpcHttpError(exc, status_code=outcome.http_status, schema=output_schema) from exc
 
+    try:
         user_cm = strip_keys(resolved_cm, STATE_KEY, CALL_STATE_KEY)
         ab_in = AnnotatedBatch(batch=input_batch, custom_metadata=user_cm)
 
